@@ -44,6 +44,8 @@ impl RRTPlanner {
         stop: &AtomicBool,
     ) -> Result<Vec<Vec<f64>>, String> {
         //return Ok(vec![Vec::from(start.clone()), Vec::from(goal.clone())]);
+        #[cfg(feature = "verif_hooks")]
+        let _verif_sequence = crate::verif_hooks::SequenceGuard::new(start, goal);
 
         let collision_free = |joint_angles: &[f64]| -> bool {
             let joints = &<Joints>::try_from(joint_angles).expect("Cannot convert vector to array");
